@@ -486,6 +486,11 @@ class Recorder:
                     dev = 0.0 if good else 1.0
                 else:
                     of, ef = float(o), float(e)
+                    if math.isnan(of) or (math.isinf(of) and of != ef) or (math.isinf(ef) and of != ef):
+                        # non-finite arithmetic (e.g. 0 * -inf) is outside the value model: the point
+                        # says nothing about the translation; the obligations + replay decide
+                        self.tv_skipped = getattr(self, "tv_skipped", 0) + 1
+                        continue
                     if math.isinf(of) or math.isinf(ef):
                         good = of == ef
                         dev = 0.0 if good else float("inf")
